@@ -512,13 +512,17 @@ func (x *Exec) applyContract(cs *callSite, callee *ssa.Function, c *FuncContract
 		if cl.Kind != "requires" {
 			continue
 		}
-		t, err := x.evalBool(env, cl.Expr)
-		if err != nil {
-			x.unsupported(fmt.Sprintf("requires of %s: %v", cname, err))
-			continue
+		parts := conjuncts(cl.Expr)
+		base := x.oblName(cs.fr, fmt.Sprintf("call-pre[%s#%d]", cname, i), cs.pos)
+		for pi, pe := range parts {
+			t, err := x.evalBool(env, pe)
+			if err != nil {
+				x.unsupported(fmt.Sprintf("requires of %s: %v", cname, err))
+				continue
+			}
+			x.check(st, "requires", partName(base, pi, len(parts)), t, fnProps(cs.fr),
+				"precondition of "+cname+": "+cl.Text, x.pos(cs.pos))
 		}
-		x.check(st, "requires", x.oblName(cs.fr, fmt.Sprintf("call-pre[%s#%d]", cname, i), cs.pos), t, fnProps(cs.fr),
-			"precondition of "+cname+": "+cl.Text, x.pos(cs.pos))
 	}
 	// panics_if of the callee must be excluded by the caller
 	for i, cl := range c.Clauses {
